@@ -89,11 +89,11 @@ func walkDirective(r *rng.R, g *tygen.Gen, s, t tygen.T) string {
 }
 
 func runC13(e *env) error {
-	e.rep.Rule = "cases = converter interfaces over types drawn from a grammar of everything Go allows in a field (basic kinds incl. uintptr/complex, named, pointers, slices, arrays, maps, structs, func, chan, interfaces incl. error and any, recursive and mutually recursive named types) with directive lines drawn from a pool of well-formed and malformed settings and mutated (dropped/inserted characters, regex metacharacters, very long paths), plus goverter:map paths that follow real fields of the source through structs and pointers to structs and non-structs and step past leaves at converter, method and -g level; each converter is run through the real pipeline in process under recover() and a deadline, and a sample through the goverter binary (exit status 2 = Go panic). Outcome classes: ok | diagnostic | panic | timeout; a diagnostic must name the declaring file. non-trivial = the converter reached the generator or a directive parser; distinct = converter text"
+	e.rep.Rule = "cases = converter interfaces over types drawn from a grammar of everything Go allows in a field (basic kinds incl. uintptr/complex, named, pointers, slices, arrays, maps, structs, func, chan, interfaces incl. error and any, recursive and mutually recursive named types) with directive lines drawn from a pool of well-formed and malformed settings and mutated (dropped/inserted characters, regex metacharacters, very long paths), plus goverter:map paths that follow real fields of the source through structs and pointers to structs and non-structs and step past leaves at converter, method and -g level; each converter is run through the real pipeline in process under recover() and a deadline, and a sample through the goverter binary (exit status 2 = Go panic); plus pinned termination hazards through the binary under a time limit (recursive generic types spelled differently in two packages, mutually recursive generics, recursive slice/pointer/map types, recursion through arrays, 80 levels of nesting) x 5 global settings. Outcome classes: ok | diagnostic | panic | timeout; a diagnostic must name the declaring file. non-trivial = the converter reached the generator or a directive parser; distinct = converter text"
 	r := e.r.Fork(13)
 	nBatches, perBatch := 3, 120
 	if e.thorough {
-		nBatches, perBatch = 30, 200
+		nBatches, perBatch = 30*e.scale, 200
 	}
 	base := filepath.Join(e.scratch, "c13")
 	type job struct {
@@ -259,8 +259,78 @@ func runC13(e *env) error {
 			e.rep.Violation("panic:cli", map[string]any{"args": args, "exit": res.Exit, "stderr": truncate(res.Stderr, 2000), "broken": "C13: the goverter binary panicked or hung"}, false)
 		}
 	}
-	_ = os.Remove
+	// pinned termination hazards, through the binary under a time limit: recursive generic types (also spelled
+	// differently in two packages), mutually recursive generics, recursive slice / pointer / map types, deep nesting
+	for hi, hz := range hazardProjects() {
+		for gi, g := range []string{"", "skipCopySameType", "useUnderlyingTypeMethods", "useZeroValueOnPointerInconsistency", "ignoreMissing"} {
+			root := filepath.Join(base, fmt.Sprintf("hz%d_%d", hi, gi))
+			if err := scratch.Write(root, hz.tree); err != nil {
+				return err
+			}
+			args := []string{"gen"}
+			if g != "" {
+				args = append(args, "-g", g)
+			}
+			args = append(args, "./...")
+			res := scratch.Run(bin, root, args, nil, 25*time.Second)
+			e.rep.Eval(1)
+			e.rep.Nontrivial("hazard:" + hz.name + ":" + g)
+			e.rep.Count(fmt.Sprintf("hazard.exit%d", res.Exit))
+			if res.TimedOut || (res.Exit != 0 && res.Exit != 1) {
+				e.rep.Violation("hang-or-panic:"+hz.name, map[string]any{"project": hz.tree, "args": args, "exit": res.Exit, "timed_out": res.TimedOut,
+					"stderr": truncate(res.Stderr, 2000), "broken": "C13: the goverter binary panicked or did not terminate within 25 s"}, false)
+			}
+			_ = os.RemoveAll(root)
+		}
+	}
 	return nil
+}
+
+type hazard struct {
+	name string
+	tree scratch.Tree
+}
+
+func hazardProjects() []hazard {
+	mod := func(files scratch.Tree) scratch.Tree {
+		files["go.mod"] = "module example.org/hz\n\ngo 1.18\n"
+		return files
+	}
+	var deep strings.Builder
+	deep.WriteString("package p\n\n")
+	for i := 0; i < 80; i++ {
+		fmt.Fprintf(&deep, "type A%d struct{ N A%d; V int }\ntype B%d struct{ N B%d; V int }\n", i, i+1, i, i+1)
+	}
+	deep.WriteString("type A80 struct{ V int }\ntype B80 struct{ V int }\n\n// goverter:converter\ntype C interface {\n\tConvert(source A0) B0\n}\n")
+	conv := func(s, t string) string {
+		return "\n// goverter:converter\ntype C interface {\n\tConvert(source " + s + ") " + t + "\n}\n"
+	}
+	return []hazard{
+		{"generic-recursive-two-spellings", mod(scratch.Tree{
+			"tree/tree.go": "package tree\n\ntype Tree[T any] struct {\n\tLabel string\n\tValue T\n\tChildren []Tree[T]\n}\n",
+			"api/api.go":   "package api\n\nimport \"example.org/hz/tree\"\n\ntype Doc struct{ Root tree.Tree[any] }\n",
+			"store/s.go":   "package store\n\nimport \"example.org/hz/tree\"\n\ntype Doc struct{ Root tree.Tree[interface{}] }\n",
+			"p/p.go":       "package p\n\nimport (\n\t\"example.org/hz/api\"\n\t\"example.org/hz/store\"\n)\n" + conv("api.Doc", "store.Doc"),
+		})},
+		{"generic-recursive-two-spellings-extend", mod(scratch.Tree{
+			"tree/tree.go": "package tree\n\ntype Tree[T any] struct {\n\tLabel string\n\tValue T\n\tChildren []Tree[T]\n}\n",
+			"api/api.go":   "package api\n\nimport \"example.org/hz/tree\"\n\ntype Doc struct{ Root tree.Tree[any] }\n",
+			"store/s.go":   "package store\n\nimport \"example.org/hz/tree\"\n\ntype Doc struct{ Root tree.Tree[interface{}] }\n",
+			"p/p.go": "package p\n\nimport (\n\t\"example.org/hz/api\"\n\t\"example.org/hz/store\"\n)\n\n// PassValue hands the payload over unchanged.\nfunc PassValue(v any) interface{} { return v }\n\n" +
+				"// goverter:converter\n// goverter:extend PassValue\ntype C interface {\n\tConvert(source api.Doc) store.Doc\n}\n",
+		})},
+		{"generic-recursive-same", mod(scratch.Tree{
+			"p/p.go": "package p\n\ntype Tree[T any] struct {\n\tValue T\n\tKids []Tree[T]\n\tNext *Tree[T]\n}\ntype In struct{ R Tree[int] }\ntype Out struct{ R Tree[int] }\n" + conv("In", "Out"),
+		})},
+		{"generic-mutual", mod(scratch.Tree{
+			"p/p.go": "package p\n\ntype A[T any] struct{ B *B[T]; V T }\ntype B[T any] struct{ A []A[T] }\ntype In struct{ X A[string] }\ntype Out struct{ X A[string] }\n" + conv("In", "Out"),
+		})},
+		{"recursive-slice-type", mod(scratch.Tree{"p/p.go": "package p\n\ntype L []L\ntype M []M\n" + conv("L", "M")})},
+		{"recursive-pointer-type", mod(scratch.Tree{"p/p.go": "package p\n\ntype P *P\ntype Q *Q\n" + conv("P", "Q")})},
+		{"recursive-map-type", mod(scratch.Tree{"p/p.go": "package p\n\ntype M map[string]M\ntype N map[string]N\n" + conv("M", "N")})},
+		{"recursive-through-array", mod(scratch.Tree{"p/p.go": "package p\n\ntype S struct{ K [2]*S }\ntype T struct{ K []*T }\n" + conv("S", "T")})},
+		{"deep-nesting-80", mod(scratch.Tree{"p/p.go": deep.String()})},
+	}
 }
 
 func sanitizeLine(s string) string {
